@@ -15,12 +15,30 @@ fn max_input(s: &mut BodySender, n: usize) -> usize {
     }
 }
 
+fn http10_chunked_sender() -> Result<BodySender, String> {
+    use ureq_proto::client::flow::{Flow, SendRequestResult};
+    use ureq_proto::http::{Request, Version};
+    let req = Request::builder().method("POST").uri("http://h.test/up").version(Version::HTTP_10).body(()).unwrap();
+    let mut f = Flow::new(req).map_err(|e| format!("{:?}", e))?.proceed();
+    let mut buf = [0u8; 256];
+    f.write(&mut buf).map_err(|e| format!("{:?}", e))?;
+    match f.proceed().map_err(|e| format!("{:?}", e))? {
+        Some(SendRequestResult::SendBody(s)) => Ok(BodySender::Flow(s)),
+        _ => Err("expected SendBody".into()),
+    }
+}
+
 fn check_n(n: usize, rec: &mut Rec) {
-    // chunked
-    let mut s = match body_sender(None, false, false) {
+    // chunked; every third n through an HTTP/1.0 request (the default framing is chunked there too)
+    let http10 = n % 3 == 1;
+    let made = if http10 { http10_chunked_sender() } else { body_sender(None, false, false) };
+    let mut s = match made {
         Ok(s) => s,
         Err(e) => return rec.fail("C18/setup", e),
     };
+    if http10 {
+        rec.cov("chunked/http10-request");
+    }
     rec.call();
     let m = max_input(&mut s, n);
     let m_next = max_input(&mut s, n + 1);
@@ -119,6 +137,7 @@ impl Property for P {
             ("chunked/hexdigits-of-n=3*".into(), 1000),
             ("chunked/hexdigits-of-n=4*".into(), 10000),
             ("length/n>0".into(), 10000),
+            ("chunked/http10-request".into(), 5000),
         ]
     }
 }
